@@ -50,7 +50,8 @@ def build(case):
     p = case["p"]
     raw = np.array(case.get("raw_variances", p["variances"]), dtype=float)
     fl = np.array(p["floors"], dtype=float) if np.ndim(p["floors"]) else float(p["floors"])
-    g = GMMMachine(int(p["C"]))
+    via_ctor = bool(case.get("weights_via_constructor"))
+    g = GMMMachine(int(p["C"]), weights=np.array(p["weights"], dtype=float)) if via_ctor else GMMMachine(int(p["C"]))
     order = case.get("order", "floors_first")
     means = np.array(p["means"], dtype=float)
     if case.get("int_params"):
@@ -67,7 +68,8 @@ def build(case):
         if order == "floors_after_a_likelihood":
             g.log_likelihood(np.array(p["means"][:1], dtype=float))
         g.variance_thresholds = fl
-    g.weights = np.array(p["weights"], dtype=float)
+    if not via_ctor:
+        g.weights = np.array(p["weights"], dtype=float)
     return g
 
 
@@ -92,7 +94,7 @@ def g_formula(draw):
     how = gen.presentation(draw)
     if how == "int":
         X = gen.integral(X)
-    c = {"p": p, "X": X, "kind": kind, "rare": rare, "order": gen.choice(draw, ["floors_first", "floors_last", "floors_after_a_likelihood"]),
+    c = {"p": p, "X": X, "kind": kind, "rare": rare, "weights_via_constructor": gen.choice(draw, [False, False, True]), "order": gen.choice(draw, ["floors_first", "floors_last", "floors_after_a_likelihood"]),
          "how": how}
     if gen.choice(draw, [False, True]) and p["floor_kind"] not in ("default", "zero"):
         # some variances are handed over BELOW their floor: the machine must clamp them (and normalise accordingly)
